@@ -322,6 +322,21 @@ def call_builtin(eng, name, args, kwargs, st, node):
             g = args[0].extra['get']
             return [(st, V('seq', extra={'len': args[0].extra['len'], 'enumerate_of': args[0].extra,
                                          'get': (lambda eng_, i, st_, _g=g: vtuple([vint(i), _g(eng_, i, st_)]))}))]
+    if name == 'reversed' and len(args) == 1:
+        a = args[0]
+        items = eng.static_items(a)
+        if items is not None:
+            return [(st, vlist(list(reversed(items))))]
+        if a.k == 'range' and a.items is None and len(a.extra['args']) in (1, 2) \
+                and all(x.k == 'int' for x in a.extra['args']):
+            ra = a.extra['args']
+            start = ra[0].z if len(ra) == 2 else z3.IntVal(0)
+            stop = ra[1].z if len(ra) == 2 else ra[0].z
+            n = z3.If(stop > start, stop - start, 0)
+            return [(st, V('seq', extra={'len': n, 'get': (lambda eng_, i, st_, _s=stop: vint(_s - 1 - i))}))]
+        if a.k == 'seq' and a.extra.get('get') is not None:
+            g, n = a.extra['get'], a.extra['len']
+            return [(st, V('seq', extra={'len': n, 'get': (lambda eng_, i, st_, _g=g, _n=n: _g(eng_, _n - 1 - i, st_))}))]
     if name == 'zip':
         its = [eng.static_items(a) for a in args]
         if all(i is not None for i in its):
